@@ -81,9 +81,10 @@ class StandardNode(XmlNode):
         )
 
         if obj is None and not self.nillable:
-            obj = ""
+            obj = b"" if self.datatype.type is bytes else ""
 
-        if self.datatype.wrapper:
+        # A value that failed to convert is kept as it was given
+        if self.datatype.wrapper and isinstance(obj, self.datatype.type):
             obj = self.datatype.wrapper(obj)
 
         if self.derived_factory:
